@@ -296,6 +296,21 @@ def check_marked_forms(ctx, kind, m, rng):
         if not (np.array_equal(r.p, m.p) and np.array_equal(np.sort(r.t, axis=0), np.sort(m.t, axis=0))
                 and r.is_valid() == m.is_valid()):
             ctx.fail(key, f'refined({mk!r}) (empty marked set as {fname}) is not the input mesh', data)
+    # boolean masks select the same cells as the index list
+    nt = m.t.shape[1]
+    for sub in ([], list(range(nt)), sorted(int(v) for v in gm.random_tags(rng, nt)), sorted(int(v) for v in gm.random_tags(rng, nt))):
+        mask = np.zeros(nt, dtype=bool)
+        mask[sub] = True
+        data = case_data(kind, m, marked=sub, form='boolmask', label='boolean-mask')
+        ctx.count(('bool-mask', cname, m.t.tolist(), sub), nontrivial=0 < len(sub) < nt)
+        try:
+            ra = m.refined(mask)
+            rb = m.refined(np.array(sub, dtype=np.int64))
+        except Exception as e:
+            ctx.fail(f'adaptive-boolean-mask:{cname}', f'refined(mask) raised {type(e).__name__}: {e}', data)
+            continue
+        if not (np.array_equal(ra.p, rb.p) and np.array_equal(ra.t, rb.t)):
+            ctx.fail(f'adaptive-boolean-mask:{cname}', f'refined(boolean mask of {sub}) differs from refined({sub})', data)
     k = int(rng.integers(0, m.t.shape[1]))
     ref = None
     for fname, mk in [('intarray', np.array([k], dtype=np.int64)), ('list', [k]), ('tuple', (k,)), ('int32array', np.array([k], dtype=np.int32))]:
@@ -493,7 +508,7 @@ def replay(ctx, data):
     kw = {'sort_t': inp['sort_t']} if kind == 'tri' else {}
     order = inp.get('order', 1)
     P = np.array(inp['p'], dtype=np.float64)
-    if inp.get('label') in ('empty-marked', 'one-element-marked'):
+    if inp.get('label') in ('empty-marked', 'one-element-marked', 'boolean-mask'):
         m = gm.skfem_cls(kind, 1)(P[:, :int(np.max(inp['t'])) + 1] if order == 2 else P, np.array(inp['t'], dtype=np.int32), **kw)
         if order == 2:
             m = gm.skfem_cls(kind, 2).from_mesh(m)
